@@ -571,3 +571,322 @@ impl<'a> Visitor for IoSendVisitor<'a> {
 fn kinds_path(path: &[Value]) -> Vec<String> {
     path.iter().map(|e| format!("{}{}@{}", e["e"].as_str().unwrap_or(""), e["n"], e["pos"])).collect()
 }
+
+// ---------------------------------------------------------------------------------------------
+// async pair over a bounded in-memory pipe, polled by hand
+// ---------------------------------------------------------------------------------------------
+use futures::io::{AsyncRead, AsyncWrite};
+use std::cell::RefCell;
+use std::future::Future;
+use std::pin::Pin;
+use std::rc::Rc;
+use std::task::{Context, Poll};
+
+#[derive(Clone, Debug, PartialEq)]
+pub enum AOut {
+    /// transfer at most this many bytes
+    Limit(usize),
+    /// answer Pending although progress is possible
+    Spurious,
+}
+
+#[derive(Default)]
+pub struct APipe {
+    pub q: VecDeque<u8>,
+    pub cap: usize,
+    pub closed_w: bool,
+    pub wscript: VecDeque<AOut>,
+    pub rscript: VecDeque<AOut>,
+    pub fscript: VecDeque<AOut>,
+    pub through: Vec<u8>,
+    pub flushed_since_write: bool,
+    /// per pipe call: (half, "ready"/"pending")
+    pub calls: Vec<(char, bool)>,
+}
+
+pub struct AWriter(pub Rc<RefCell<APipe>>);
+pub struct AReader(pub Rc<RefCell<APipe>>);
+
+impl Drop for AWriter {
+    fn drop(&mut self) {
+        self.0.borrow_mut().closed_w = true;
+    }
+}
+
+impl AsyncWrite for AWriter {
+    fn poll_write(self: Pin<&mut Self>, _cx: &mut Context<'_>, buf: &[u8]) -> Poll<io::Result<usize>> {
+        let mut p = self.0.borrow_mut();
+        let free = p.cap - p.q.len();
+        if free == 0 {
+            p.calls.push(('w', false));
+            return Poll::Pending;
+        }
+        let lim = match p.wscript.pop_front() {
+            Some(AOut::Spurious) => {
+                p.calls.push(('w', false));
+                return Poll::Pending;
+            }
+            Some(AOut::Limit(k)) => k,
+            None => usize::MAX,
+        };
+        let k = lim.min(free).min(buf.len());
+        p.q.extend(&buf[..k]);
+        p.through.extend_from_slice(&buf[..k]);
+        p.flushed_since_write = false;
+        p.calls.push(('w', true));
+        Poll::Ready(Ok(k))
+    }
+    fn poll_flush(self: Pin<&mut Self>, _cx: &mut Context<'_>) -> Poll<io::Result<()>> {
+        let mut p = self.0.borrow_mut();
+        if let Some(AOut::Spurious) = p.fscript.front() {
+            p.fscript.pop_front();
+            p.calls.push(('f', false));
+            return Poll::Pending;
+        }
+        p.fscript.pop_front();
+        p.flushed_since_write = true;
+        p.calls.push(('f', true));
+        Poll::Ready(Ok(()))
+    }
+    fn poll_close(self: Pin<&mut Self>, _cx: &mut Context<'_>) -> Poll<io::Result<()>> {
+        self.0.borrow_mut().closed_w = true;
+        Poll::Ready(Ok(()))
+    }
+}
+
+impl AsyncRead for AReader {
+    fn poll_read(self: Pin<&mut Self>, _cx: &mut Context<'_>, buf: &mut [u8]) -> Poll<io::Result<usize>> {
+        let mut p = self.0.borrow_mut();
+        if p.q.is_empty() && !p.closed_w {
+            p.calls.push(('r', false));
+            return Poll::Pending;
+        }
+        if let Some(AOut::Spurious) = p.rscript.front() {
+            p.rscript.pop_front();
+            p.calls.push(('r', false));
+            return Poll::Pending;
+        }
+        if p.q.is_empty() {
+            p.calls.push(('r', true));
+            return Poll::Ready(Ok(0));
+        }
+        let lim = match p.rscript.pop_front() {
+            Some(AOut::Limit(k)) => k,
+            _ => usize::MAX,
+        };
+        let k = lim.min(p.q.len()).min(buf.len());
+        for b in buf.iter_mut().take(k) {
+            *b = p.q.pop_front().unwrap();
+        }
+        p.calls.push(('r', true));
+        Poll::Ready(Ok(k))
+    }
+}
+
+#[derive(Default)]
+pub struct ARun {
+    pub received: Vec<Value>,
+    pub recv_end: Option<String>,
+    pub send_results: Vec<(bool, usize, bool)>, // (ok, bytes through the pipe at that moment, flushed since last write)
+    pub real_msgs: Vec<Vec<u8>>,
+    pub polls: Vec<(char, bool, Option<bool>)>, // (task, ready, last pipe call of this poll was ready?)
+    pub through: Vec<u8>,
+    pub completed: (bool, bool),
+}
+
+pub struct IoAsyncVisitor<'a> {
+    pub eng: &'a Engine,
+    pub case: &'a Value,
+    pub header: &'a Value,
+    pub out: &'a mut Out,
+}
+
+pub fn run_async_pair<T: Shape + ?Sized>(msgs: &[Value], maxlen: usize, pipe_cap: usize, schedule: &[char], ws: Vec<AOut>, rs: Vec<AOut>, fs: Vec<AOut>, extra_polls: usize) -> Obs<ARun> {
+    guarded(|| {
+        let pipe = Rc::new(RefCell::new(APipe { cap: pipe_cap, wscript: ws.into(), rscript: rs.into(), fscript: fs.into(), ..Default::default() }));
+        let log = Rc::new(RefCell::new(ARun::default()));
+        let waker = futures::task::noop_waker();
+        let mut cx = Context::from_waker(&waker);
+        let (l1, p1) = (log.clone(), pipe.clone());
+        let sender_task = async move {
+            let mut tx = flatty_io::AsyncSender::<T, _>::io(AWriter(p1.clone()), maxlen);
+            for (i, m) in msgs.iter().enumerate() {
+                let g = tx.alloc().await.expect("alloc");
+                let g = g.new_in_place(T::emp(m, i as u32)).expect("message fits the sender's buffer");
+                let size = g.size();
+                l1.borrow_mut().real_msgs.push(g.as_bytes()[..size.min(g.as_bytes().len())].to_vec());
+                let r = g.send().await;
+                let (n, fl) = {
+                    let p = p1.borrow();
+                    (p.through.len(), p.flushed_since_write)
+                };
+                l1.borrow_mut().send_results.push((r.is_ok(), n, fl));
+                if r.is_err() {
+                    break;
+                }
+            }
+            // the sender (and with it the write half) is dropped here: the stream ends
+        };
+        let (l2, p2) = (log.clone(), pipe.clone());
+        let receiver_task = async move {
+            let mut rx = flatty_io::AsyncReceiver::<T, _>::io(AReader(p2), maxlen);
+            loop {
+                match rx.recv().await {
+                    Ok(g) => {
+                        let mut c = Ctx::unbounded();
+                        let v = g.read(&mut c);
+                        l2.borrow_mut().received.push(json!({"v": v, "size": g.size(), "lencap": c.lencap}));
+                    }
+                    Err(RecvError::Closed) => {
+                        l2.borrow_mut().recv_end = Some("closed".into());
+                        break;
+                    }
+                    Err(RecvError::Parse(e)) => {
+                        l2.borrow_mut().recv_end = Some(format!("parse {}", err_json(&e)));
+                        break;
+                    }
+                    Err(RecvError::Read(e)) => {
+                        l2.borrow_mut().recv_end = Some(format!("read error {:?}", e.kind()));
+                        break;
+                    }
+                }
+            }
+        };
+        let mut s: Pin<Box<dyn Future<Output = ()> + '_>> = Box::pin(sender_task);
+        let mut r: Pin<Box<dyn Future<Output = ()> + '_>> = Box::pin(receiver_task);
+        let (mut sdone, mut rdone) = (false, false);
+        let mut poll_one = |t: char, sdone: &mut bool, rdone: &mut bool| {
+            let n0 = pipe.borrow().calls.len();
+            let ready = if t == 'S' {
+                if *sdone { return; }
+                let x = s.as_mut().poll(&mut cx).is_ready();
+                *sdone = x;
+                x
+            } else {
+                if *rdone { return; }
+                let x = r.as_mut().poll(&mut cx).is_ready();
+                *rdone = x;
+                x
+            };
+            let last = {
+                let p = pipe.borrow();
+                if p.calls.len() > n0 { Some(p.calls[p.calls.len() - 1].1) } else { None }
+            };
+            log.borrow_mut().polls.push((t, ready, last));
+        };
+        for t in schedule {
+            poll_one(*t, &mut sdone, &mut rdone);
+        }
+        // then fair polling: both futures must complete once the pipe makes progress
+        let mut k = 0;
+        while (!sdone || !rdone) && k < extra_polls {
+            poll_one(if k % 2 == 0 { 'S' } else { 'R' }, &mut sdone, &mut rdone);
+            k += 1;
+        }
+        drop(s);
+        drop(r);
+        let mut run = std::mem::take(&mut *log.borrow_mut());
+        run.through = pipe.borrow().through.clone();
+        run.completed = (sdone, rdone);
+        run
+    })
+}
+
+impl<'a> Visitor for IoAsyncVisitor<'a> {
+    type Out = ();
+    fn visit<T: Shape + ?Sized>(self) {
+        let IoAsyncVisitor { eng, case, header, out } = self;
+        let id = header["id"].as_str().unwrap_or("?");
+        let props = crate::replay::props_of(case, &eng.default_props);
+        if !props.iter().any(|x| x == "C08") {
+            return;
+        }
+        let msgs = arr(&header["msgs"]);
+        let imgs = arr(&header["imgs"]);
+        let maxlen = header["maxlen"].as_u64().unwrap_or(0) as usize;
+        let pipe_cap = case["pipecap"].as_u64().or(header["pipecap"].as_u64()).unwrap_or(5) as usize;
+        let path = arr(&case["path"]);
+        let mut schedule = vec![];
+        let (mut ws, mut rs, mut fs) = (vec![], vec![], vec![]);
+        let mut spurious = 0;
+        for p in path {
+            schedule.push(if p["task"] == "S" { 'S' } else { 'R' });
+            for e in arr(&p["evs"]) {
+                let n = e["n"].as_u64().unwrap_or(0) as usize;
+                match e["e"].as_str().unwrap_or("") {
+                    "w" => ws.push(AOut::Limit(n)),
+                    "wpend" => { ws.push(AOut::Spurious); spurious += 1; }
+                    "r" => rs.push(AOut::Limit(n)),
+                    "rpend" => { rs.push(AOut::Spurious); spurious += 1; }
+                    "fpend" => { fs.push(AOut::Spurious); spurious += 1; }
+                    "flush" => fs.push(AOut::Limit(0)),
+                    _ => {}
+                }
+            }
+        }
+        let class = format!("ioasync.polls{}.{}", if spurious > 0 { ".spurious" } else { "" }, if case["done"][0] == json!(true) && case["done"][1] == json!(true) { "complete" } else { "prefix" });
+        out.count(&class);
+        out.count("judged.C08");
+        out.sample(&class, &json!({"header": header, "path": case["path"], "pipecap": pipe_cap}));
+        let total: usize = imgs.iter().map(|m| arr(m).len()).sum();
+        let extra = 8 * (total + 4);
+        let run = match run_async_pair::<T>(msgs, maxlen, pipe_cap, &schedule, ws, rs, fs, extra) {
+            Obs::Panic(m) => {
+                out.viol("C08", "panic", id, "poll", format!("a poll panicked: {}", m));
+                return;
+            }
+            Obs::Ret(r) => r,
+        };
+        if !run.completed.0 || !run.completed.1 {
+            out.viol("C08", "no-completion", id, if !run.completed.0 { "send" } else { "recv" }, format!("after the schedule and {} fair polls the futures are not complete: sender {}, receiver {}", extra, run.completed.0, run.completed.1));
+            return;
+        }
+        // delivered = sent, then Closed
+        if run.recv_end.as_deref() != Some("closed") {
+            out.viol("C08", "returns", id, "end", format!("receiver ended with {:?}", run.recv_end));
+        }
+        if run.received.len() != msgs.len() {
+            out.viol("C08", "delivered", id, "count", format!("{} messages delivered, {} sent", run.received.len(), msgs.len()));
+        }
+        for (i, got) in run.received.iter().enumerate() {
+            if let Some(m) = msgs.get(i) {
+                if let Some(d) = content_diff(m, &got["v"], "") {
+                    out.viol("C08", "delivered", id, "content", format!("message {}: {}", i, d));
+                }
+            }
+        }
+        // every send completed Ok, with all its bytes accepted and a flush after the last write
+        let mut cum = 0usize;
+        for (i, (ok, through, flushed)) in run.send_results.iter().enumerate() {
+            cum += run.real_msgs.get(i).map(|m| m.len()).unwrap_or(0);
+            if !ok {
+                out.viol("C08", "send", id, "error", format!("send {} failed on a pipe that never fails", i));
+            } else if *through < cum {
+                out.viol("C08", "send", id, "early-completion", format!("send {} completed with {} of {} bytes handed to the pipe", i, through, cum));
+            } else if !flushed {
+                out.viol("C08", "send", id, "no-flush", format!("send {} completed without a flush after its last write", i));
+            }
+        }
+        let sent: Vec<u8> = run.real_msgs.concat();
+        if run.through != sent {
+            out.viol("C08", "stream", id, "bytes", format!("{} bytes went through the pipe, the messages are {} bytes", run.through.len(), sent.len()));
+        }
+        // a poll returns Pending only if the last pipe call in it answered Pending
+        for (i, (t, ready, last)) in run.polls.iter().enumerate() {
+            if !ready && *last != Some(false) {
+                out.viol("C08", "pending", id, &format!("{}", t), format!("poll {} of task {} returned Pending although its last pipe call was {:?}", i, t, last));
+                break;
+            }
+        }
+        // the polls of the path answer as in the model
+        for (i, p) in path.iter().enumerate() {
+            if let Some((_, ready, _)) = run.polls.get(i) {
+                let exp_ready = p["res"] == "ready";
+                if *ready != exp_ready {
+                    out.viol("C08", "poll-result", id, p["task"].as_str().unwrap_or(""), format!("poll {} of task {} is {} in the model and {} in the code", i, p["task"], p["res"], if *ready { "ready" } else { "pending" }));
+                    break;
+                }
+            }
+        }
+    }
+}
